@@ -47,6 +47,23 @@ PROPS = {
             S("chunks", ["--cases", 250, "--cutlen", 200], ["--cases", 8000, "--cutlen", 400]),
         ],
     ),
+    "C08": dict(
+        lean_modules=["Beetswap.Props.C08"],
+        model_scope=CODEC_SCOPE + "; " + CID_SCOPE + "; " + NODE_SCOPE,
+        assumptions=CODEC_ASSUME + ["two build configurations of the harness: `release` (no overflow checks) and `checked` (release + overflow-checks + debug-assertions); every codec case runs in a watchdog child process with an address-space limit"],
+        overrun_failures_in_scope=True,
+        streams=[
+            S("frame", ["--cases", 2500], ["--cases", 400000]),
+            S("frame", ["--cases", 2500], ["--cases", 400000], profile="checked"),
+            S("shortframes", ["--maxlen", 3], ["--maxlen", 4]),
+            S("shortframes", ["--maxlen", 3], ["--maxlen", 4], profile="checked"),
+            S("prefix", ["--cases", 300, "--maxlen", 3], ["--cases", 50000, "--maxlen", 5]),
+            S("prefix", ["--cases", 300, "--maxlen", 3], ["--cases", 50000, "--maxlen", 5], profile="checked"),
+            S("procmsg", ["--cases", 200], ["--cases", 20000], profile="checked"),
+            S("node", ["--cases", 80], ["--cases", 5000, "--ops", 150], profile="checked"),
+            S("nodebig", ["--cases", 8], ["--cases", 200], profile="checked"),
+        ],
+    ),
     "C09": dict(
         lean_modules=["Beetswap.Props.C09"],
         model_scope=CODEC_SCOPE,
@@ -81,6 +98,44 @@ PROPS = {
         streams=[
             S("node", ["--cases", 100], ["--cases", 5000, "--ops", 200]),
             S("nodebig", ["--cases", 15], ["--cases", 400]),
+        ],
+    ),
+    "C04": dict(
+        lean_modules=["Beetswap.Props.C04"],
+        model_scope=NODE_SCOPE,
+        assumptions=NODE_ASSUME,
+        streams=[
+            S("node", ["--cases", 150, "--keys", 3], ["--cases", 8000, "--keys", 3, "--ops", 150]),
+            S("node", ["--cases", 60, "--keys", 2, "--peers", 2, "--ops", 200], ["--cases", 3000, "--keys", 2, "--peers", 2, "--ops", 300]),
+        ],
+    ),
+    "C05": dict(
+        lean_modules=["Beetswap.Props.C05"],
+        model_scope=NODE_SCOPE + "; the connection handler (ClientConnectionHandler) is exercised in the simulator, not modelled in a theorem",
+        assumptions=NODE_ASSUME + ["acknowledgements from connection handlers are not late (a handler that is alive reports RequestReceived within 1 s): violations under late acknowledgements are the known findings F13 / F14",
+                                   "Tier 2 simulator: libp2p-swarm / yamux / multistream-select over the memory transport under a harness-owned executor and virtual clock"],
+        streams=[
+            S("node", ["--cases", 100], ["--cases", 5000, "--ops", 150]),
+            S("simfault", ["--cases", 150], ["--cases", 8000, "--nodes", 4, "--actions", 50]),
+            S("simlate", ["--cases", 60], ["--cases", 3000]),
+        ],
+    ),
+    "C15": dict(
+        lean_modules=["Beetswap.Props.C15"],
+        model_scope=NODE_SCOPE,
+        assumptions=NODE_ASSUME + ["late acknowledgements excluded (known finding F14)", "Tier 2 simulator as in C05"],
+        streams=[
+            S("node", ["--cases", 100, "--peers", 2], ["--cases", 5000, "--peers", 2, "--ops", 150]),
+            S("sim", ["--cases", 120, "--conns", 3], ["--cases", 6000, "--conns", 3, "--nodes", 4]),
+            S("simfault", ["--cases", 80, "--conns", 3], ["--cases", 4000, "--conns", 3]),
+        ],
+    ),
+    "C17": dict(
+        lean_modules=["Beetswap.Props.C17"],
+        model_scope=NODE_SCOPE,
+        assumptions=NODE_ASSUME,
+        streams=[
+            S("node", ["--cases", 150, "--keys", 3], ["--cases", 8000, "--keys", 3, "--ops", 150]),
         ],
     ),
     "C06": dict(
@@ -141,6 +196,7 @@ PROPS = {
                      "the correspondence check samples prefix strings (exhaustively up to a length over a boundary alphabet)"],
         streams=[
             S("proto", ["--cases", 300, "--maxlen", 4], ["--cases", 20000, "--maxlen", 6]),
+            S("simproto", ["--cases", 60], ["--cases", 3000, "--nodes", 4]),
         ],
     ),
     "C11": dict(
